@@ -258,6 +258,7 @@ DExtrema(a) ==
        A.r >= 1 => /\ AlgoWhichMax(A) \in ArgMax(A)
                    /\ A.e[AlgoWhichMax(A)[1]][AlgoWhichMax(A)[2]] = MaxV(A))
 
+SignedVals == {-1, 0, 1}          \* for "Vals <- SignedVals" in a configuration (a cfg cannot spell negative numbers)
 Z00 == [r |-> 0, c |-> 0, e |-> <<>>]
 Sentinels == {Z00, Mk(1, 1, LAMBDA i, j : 7), Mk(3, 3, LAMBDA i, j : 7)}
 Shapes(S) == {Z00} \cup UNION {{[r |-> r, c |-> c, e |-> e] : e \in [1..r -> [1..c -> S]]} : r \in 1..DMax, c \in 1..DMax}
